@@ -1,5 +1,5 @@
 SPECIFICATION Spec
-CONSTANTS MaxN = 4  MaxNT = 2  Ws = {1, 2, 3}  WsBox = {1, 2}  Origins <- OriginsDef  Rotate = FALSE  Pad = 6  Variant = "code"
+CONSTANTS MaxN = 4  MaxNT = 2  Ws = {1, 2, 3}  WsBox = {1, 2}  Origins = {0}  Rotate = FALSE  Pad = 6  Variant = "code"
 INVARIANT GridOK
 INVARIANT SnapCorrect
 INVARIANT CentreCorrect
